@@ -132,7 +132,29 @@ CHECKS["C10"] = dict(
     ref="DESIGN.md section 5 C10, section 3.8",
     technique="TLC model checking of Client.tla + big-step conformance of scripted-server schedules against p9.Client")
 
+VEC_NOTE = ("Trusted base: TLC as evaluator of the tables of spec/Version.tla (their ASSUMEs: canonical spelling parses back, "
+            "replies within 4 MiB, size arithmetic) and the meaning table of the version tokens; the layout-table codec. "
+            "No interleavings are involved: the specification is a transcription of functions and TLC enumerates its grid.")
+CHECKS["C12"] = dict(
+    engine="version", category="model_checking", note=VEC_NOTE,
+    text=("Version.tla states the negotiation as tables over token-structured version strings and msize classes; TLC checks "
+          "the tables' own properties and enumerates the whole grid (2430 Tversion vectors, 462 client scenarios incl. EAGAIN "
+          "retries and lowered msize/version); every vector is replayed against p9.Server / p9.NewClient and the client's "
+          "subsequent message types and sizes are compared with what it must have adopted. Input/configuration-quantified, "
+          "finite grid, exhaustive."),
+    ref="DESIGN.md section 5 C12", technique="TLC-evaluated specification tables (Version.tla) + exhaustive vector replay")
+CHECKS["C13"] = dict(
+    engine="version", category="model_checking", note=VEC_NOTE,
+    text=("Version.tla states the size arithmetic (largest data under an msize, payload size a client derives); TLC checks the "
+          "inequalities over the msize grid and enumerates 1404 (msize, count, read|readdir, re-negotiation) vectors; each is "
+          "replayed against p9.Server with a backend that always has enough data: no reply frame may exceed the announced "
+          "msize and the connection must stay usable; the client vectors check request/reply sizing against a lowered msize."),
+    ref="DESIGN.md section 5 C13", technique="TLC-evaluated size arithmetic (Version.tla) + exhaustive vector replay")
+
 ENGINES = [
+    {"name": "version", "path": "spec/Version.tla + spec/MC_Version.tla + harness/cmd/sizes",
+     "serves_properties": ["C12", "C13"],
+     "kind_free_text": "function/table specification evaluated by TLC over a finite grid; vectors replayed against server and client"},
     {"name": "client", "path": "spec/Client.tla + spec/MC_Client.tla + lib/bigstep.py + harness/cmd/clientsched",
      "serves_properties": ["C10"],
      "kind_free_text": "small-step TLA+ spec of the client multiplexer with a scripted server as environment; big-step conformance"},
